@@ -85,7 +85,8 @@ class PACTAct(Quantizer):
         :return: the scale factor
         :rtype: torch.Tensor
         """
-        return self.clip_val.data[0] / (2 ** self.precision - 1)
+        # same grid as PACTActSTE.forward, which divides by (clip_val + 1e-3)
+        return (self.clip_val.data[0] + 1e-3) / (2 ** self.precision - 1)
 
     def summary(self) -> Dict[str, Any]:
         """Export a dictionary with the optimized layer quantization hyperparameters
@@ -219,7 +220,8 @@ class PACTActSigned(Quantizer):
         :return: the scale factor
         :rtype: torch.Tensor
         """
-        return (self.clip_val_sup.data[0] - self.clip_val_inf.data[0]) / (2 ** self.precision - 1)
+        # same grid as PACTActSignedSTE.forward, which divides by (clip_val_sup - clip_val_inf + 1e-3)
+        return (self.clip_val_sup.data[0] - self.clip_val_inf.data[0] + 1e-3) / (2 ** self.precision - 1)
 
     def summary(self) -> Dict[str, Any]:
         """Export a dictionary with the optimized layer quantization hyperparameters
